@@ -232,7 +232,7 @@ static std::vector<Subject> subjects() {
         Out o; o.push_back(lb); o.push_back(ub); flat(o, vl); flat(o, q); return o; }});
     v.push_back({"GapMin(budget)", true, [](uint64_t ps, int mode) {
         A::POMDP::GapMin s(0.01, 3);
-        A::Verif::anytimeObserver = [](const A::Verif::AnytimeSnapshot & sn) { return sn.iteration < 3; };
+        A::Verif::anytimeObserver = [](const A::Verif::AnytimeSnapshot & sn) { return sn.iteration < 2; };   // 2 iterations: the third alone took > 10 min under ASan on some S = 2 instances (thorough seeds 2, 3)
         // smallest size class only (S = 2, A, O in 1..2): on larger random POMDPs a single GapMin iteration can take minutes under ASan
         // (thorough seed 1 cases 1758, 2038 were killed after 120 s)
         auto run = [&](uint64_t seed, int extra) { (void)extra; Rng rr(seed); auto p = randomPomdp(rr, 2, 1 + rr.below(2), 1 + rr.below(2)); auto m = toDense(p); A::Vector b = A::Vector::Constant(p.S, 1.0 / p.S); return s(m, b); };
@@ -503,6 +503,10 @@ static void cat(Out & a, const Out & b) { a.push_back((double)b.size()); a.inser
 
 void verif::verif_case(Rng & rng, long idx, const std::string &) {
     const Subject & sj = g_subj[idx % g_subj.size()];
+    // GapMin under ASan: some random S = 2 instances need more than ten minutes for a single iteration (thorough seeds 2, 3); its cost is not
+    // this property's subject (C03 checks GapMin snapshot by snapshot), so it is a subject on the quick tier's rounds only and is never the
+    // unrelated "prefix" call of another subject
+    if (!std::strcmp(sj.name, "GapMin(budget)") && idx / (long)g_subj.size() >= 4) { std::printf("#stat gapmin_skipped_beyond_quick_rounds 1\n"); return; }
     uint64_t ps = rng.next(); unsigned root = (unsigned)rng.next();
     if (g_alone) {   // fresh-process mode: print only the result of the call under test
         A::Seeder::setRootSeed(root); Out a = sj.run(ps, 0);
@@ -516,7 +520,8 @@ void verif::verif_case(Rng & rng, long idx, const std::string &) {
     emit(sj.name, "twice", a, b);
     // prefix: unrelated calls (two other subjects on other problems, another root seed) first
     for (int k = 0; k < 2; ++k) {
-        const Subject & other = g_subj[rng.below(g_subj.size())];
+        size_t oi = rng.below(g_subj.size()); if (!std::strcmp(g_subj[oi].name, "GapMin(budget)")) oi = 0;
+        const Subject & other = g_subj[oi];
         A::Seeder::setRootSeed((unsigned)rng.next());
         try { other.run(rng.next(), 0); } catch (const std::exception &) {}
     }
